@@ -782,6 +782,102 @@ fn sweep_long_lines(fmt: Format, probes: &[&str]) -> Acc {
         .reduce(Acc::default, Acc::merge)
 }
 
+/// One input through `crustabri check -f FILE -r FORMAT` (the reader's command-line face, which the
+/// property names as an observation point): exit status 0 in the must-accept zone, non-zero in the
+/// must-reject zone, a regular exit everywhere.
+pub fn check_cmd_one(fmt: Format, bytes: &[u8], seq: usize) -> Result<u8, (String, String)> {
+    let zone = match fmt {
+        Format::Iccma => classify_iccma(bytes),
+        Format::Apx => classify_apx(bytes),
+    };
+    let dir = crate::checks::c16::scratch_dir("c13cmd");
+    let path = dir.join(format!("in_{}_{}.{}", std::process::id(), seq, if fmt == Format::Apx { "apx" } else { "af" }));
+    std::fs::write(&path, bytes).expect("scratch file");
+    let inv = crate::checks::c05::Invocation {
+        bin: crate::checks::c05::bin_solve(),
+        args: vec!["check".into(), "-f".into(), path.display().to_string(), "-r".into(), if fmt == Format::Apx { "apx".into() } else { "iccma23".into() }, "--logging-level".into(), "off".into()],
+    };
+    let r = crate::checks::c05::run(&inv);
+    let _ = std::fs::remove_file(&path);
+    match (&zone, r.code) {
+        (_, None) => Err(("check_command_no_regular_exit".into(), format!("`crustabri check` did not exit regularly (signal or 60 s watchdog): {}", r.stdout))),
+        (Zone::Accept(_), Some(0)) => Ok(0),
+        (Zone::Accept(_), Some(c)) => Err(("wellformed_rejected_by_check_command".into(), format!("`crustabri check` exits with status {} on a well-formed file", c))),
+        (Zone::Reject(why), Some(0)) => Err((format!("illformed_accepted_by_check_command:{}", why.replace(' ', "_")), format!("`crustabri check` exits with status 0 on an ill-formed file ({})", why))),
+        (Zone::Reject(_), Some(_)) => Ok(1),
+        (_, Some(_)) => Ok(2),
+    }
+}
+
+fn sweep_check_command(fmt: Format, lines: &[&str], k: usize) -> Acc {
+    let mut inputs: Vec<Vec<u8>> = vec![];
+    for f in corpus(fmt) {
+        inputs.push(f.as_bytes().to_vec());
+        let ls: Vec<&str> = f.split_inclusive('\n').collect();
+        for i in 0..ls.len() {
+            let mut t = ls.clone();
+            t.remove(i);
+            inputs.push(t.concat().into_bytes());
+            let mut t = ls.clone();
+            t.insert(i, ls[i]);
+            inputs.push(t.concat().into_bytes());
+            for j in i + 1..ls.len() {
+                let mut t = ls.clone();
+                t.swap(i, j);
+                inputs.push(t.concat().into_bytes());
+            }
+        }
+    }
+    // all line sequences of length <= k
+    let mut seqs: Vec<Vec<usize>> = vec![vec![]];
+    let mut frontier: Vec<Vec<usize>> = vec![vec![]];
+    for _ in 0..k {
+        let mut next = vec![];
+        for s in &frontier {
+            for i in 0..lines.len() {
+                let mut t = s.clone();
+                t.push(i);
+                next.push(t);
+            }
+        }
+        seqs.extend(next.iter().cloned());
+        frontier = next;
+    }
+    for s in seqs {
+        let mut text = String::new();
+        for i in s {
+            text.push_str(lines[i]);
+            text.push('\n');
+        }
+        inputs.push(text.into_bytes());
+    }
+    inputs.sort();
+    inputs.dedup();
+    let idx: Vec<usize> = (0..inputs.len()).collect();
+    idx.par_iter()
+        .with_max_len(1)
+        .map(|&i| {
+            let mut acc = Acc::default();
+            acc.inputs += 1;
+            let bytes = &inputs[i];
+            match check_cmd_one(fmt, bytes, i) {
+                Ok(z) => acc.zone[z as usize] += 1,
+                Err((what, msg)) => {
+                    let key = format!("format={};what={}", fmt.name(), what);
+                    let v = Violation {
+                        property: "C13".into(),
+                        key: key.clone(),
+                        message: format!("{} file {:?}: {}", fmt.name(), String::from_utf8_lossy(bytes), msg),
+                        case: json!({"engine": "check_cmd", "format": fmt.name(), "bytes": bytes.to_vec()}),
+                    };
+                    acc.violations.insert(key, (1, bytes.len(), v));
+                }
+            }
+            acc
+        })
+        .reduce(Acc::default, Acc::merge)
+}
+
 pub fn run(tier: Tier) -> i32 {
     let mut rep = Report::new("C13", tier);
     let thorough = tier == Tier::Thorough;
@@ -807,6 +903,8 @@ pub fn run(tier: Tier) -> i32 {
         run_one(format!("{}: all byte strings of length <= 2, and of length 3 over 40 bytes", fmt.name()), sweep_short_bytes(fmt, probes), &mut total);
         run_one(format!("{}: every well-formed file of U(<={}) in a menu of layouts", fmt.name(), 3), sweep_grammar(fmt, 3, probes), &mut total);
         run_one(format!("{}: one line of every length <= 130+ with one character of each UTF-8 width at every offset, in 7 syntactic positions", fmt.name()), sweep_long_lines(fmt, probes), &mut total);
+        let kc = if thorough { 3 } else { 2 };
+        run_one(format!("{}: `crustabri check` as a process on the corpus, its line edits and all line sequences of length <= {}", fmt.name(), kc), sweep_check_command(fmt, lines, kc), &mut total);
     }
     rep.states = total.inputs;
     rep.transitions = total.inputs;
@@ -822,7 +920,7 @@ pub fn run(tier: Tier) -> i32 {
         rep.n_violations += n - 1;
         rep.add_violation(v);
     }
-    rep.rule = "every input of six exhaustively enumerated finite families per format is read by the real reader; states = transitions = inputs; three-zone oracle: strict grammar => Ok with exactly the declared arguments (declaration order, ids) and attacks; the ill-formedness classes the property lists => Err; everything else: no requirement on accept/reject; in all zones no panic and a self-consistent result; read_arg_from_str probed on every accepted framework; distinct_nontrivial = inputs in the must-accept or must-reject zone".into();
+    rep.rule = "every input of six exhaustively enumerated finite families per format is read by the real reader, and a seventh family is given to `crustabri check` as a process (exit status 0 / non-zero against the same zones); states = transitions = inputs; three-zone oracle: strict grammar => Ok with exactly the declared arguments (declaration order, ids) and attacks; the ill-formedness classes the property lists => Err; everything else: no requirement on accept/reject; in all zones no panic and a self-consistent result; read_arg_from_str probed on every accepted framework; distinct_nontrivial = inputs in the must-accept or must-reject zone".into();
     rep.bounds = json!({"token_string_length": ktok, "line_sequence_length": klin, "declared_sizes": "<= 10"});
     rep.assumptions = vec!["the zone classifier (harness) is the specification of well-/ill-formedness; CRLF, irregular spacing, duplicate declarations, exotic number spellings are deliberately unspecified".into()];
     rep.finish()
